@@ -96,6 +96,8 @@ def milps(draw, tier="quick"):
         vals = [draw(st.integers(0, 5)) for _ in range(n)]
         c = [-v for v in vals] if minimize else vals
         integers = list(range(n))
+        if draw(st.integers(0, 2)) == 0:  # one continuous variable: LNS sub-problems then return floats, not exact 0/1
+            integers.remove(draw(st.integers(0, n - 1)))
     else:
         n = draw(st.integers(1, nmax))
         m = draw(st.integers(1, 4))
@@ -141,9 +143,10 @@ def milps(draw, tier="quick"):
         "heuristics": True if family == "binary-knapsack" else draw(st.booleans()),
         "lns_iterations": draw(st.sampled_from([0, 0, 1, 3, 10])),
         "seed": draw(st.integers(0, 99)),
+        "lns_destroy_frac": draw(st.sampled_from([None, None, 0.5, 0.7, 1.0])),
         "solution_limit": draw(st.sampled_from([1, 1, 1, 2, 3, 10])),
         "max_nodes": draw(st.sampled_from([None] * 7 + [1, 2, 5])),
-        "warm": "none" if family == "binary-knapsack" and draw(st.integers(0, 3)) else draw(st.sampled_from(["none", "none", "none", "optimal", "feasible", "infeasible", "fractional", "wrong-length", "feasible-but-negative", "feasible-but-fractional", "feasible-but-row-violated"])),
+        "warm": "none" if family == "binary-knapsack" and draw(st.integers(0, 3)) else draw(st.sampled_from(["none", "none", "none", "optimal", "feasible", "infeasible", "fractional", "wrong-length", "feasible-but-negative", "feasible-but-fractional", "feasible-but-row-violated", "feasible-mirror-of-root", "feasible-mirror-of-root"])),
         "warm_pick": draw(st.integers(0, 10**6)),
     }
 
@@ -247,6 +250,14 @@ def warm_start_point(desc, ora):
         else:
             base[j] += 50.0
         return base
+    if kind == "feasible-mirror-of-root":
+        # a feasible point whose objective is exactly minus the root relaxation value (sign slips in gap tests)
+        if ora["relax_val"] is None:
+            return None
+        mirror = [x for val, x in ora["feasible"] if val == -ora["relax_val"]]
+        if not mirror:
+            return None
+        return [float(v) for v in mirror[pick % len(mirror)]]
     if kind == "optimal":
         return [float(v) for v in ora["best"]]
     feas = sorted(ora["feasible"], key=lambda t: (t[0], [str(v) for v in t[1]]))
@@ -281,6 +292,8 @@ def run(desc, ctx):
     kw = dict(minimize=desc["minimize"], heuristics=desc["heuristics"], lns_iterations=desc["lns_iterations"], seed=desc["seed"], solution_limit=desc["solution_limit"])
     if desc["max_nodes"] is not None:
         kw["max_nodes"] = desc["max_nodes"]
+    if desc.get("lns_destroy_frac") is not None:
+        kw["lns_destroy_frac"] = desc["lns_destroy_frac"]
     if ws is not None:
         kw["warm_start"] = ws
     res = ctx.call(solve_milp, desc["c"], desc["A"], desc["b"], desc["integers"], **kw)
